@@ -300,7 +300,7 @@ def _deps():
     return g
 
 
-def build_for(targets, timeout=1800):
+def build_for(targets, timeout=600):
     """Compile (only) the given files and what they depend on, if stale; one builder at a time (flock),
     so a file someone else is editing cannot break this property's build."""
     import fcntl
